@@ -70,15 +70,27 @@ class Arr(Val):
 
 
 class Rule:
-    """One summarised write: for all binders (under guards): target[index] (op)= value."""
-    def __init__(self, index, op, value, binders=(), guards=()):
+    """One summarised write: for all binders (under guards): target[index](.field)* (op)= value."""
+    def __init__(self, index, op, value, binders=(), guards=(), subpath=()):
         self.index = tuple(index)          # entities (binder vars, free vars or ints)
         self.op = op                       # '=', '+', '-', '*'
         self.value = value                 # Val (scalar Num or structured), may mention binders
         self.binders = tuple(binders)      # (name, cls)
         self.guards = tuple(guards)
+        self.subpath = tuple(subpath)      # field names below the element
 
     def apply(self, old, idx):
+        if self.subpath:
+            if not isinstance(old, Struct):
+                raise Undecided("field write on a non-struct element")
+            fname = self.subpath[0]
+            inner = Rule(self.index, self.op, self.value, self.binders, self.guards, self.subpath[1:])
+            f = dict(old.fields)
+            f[fname] = inner.apply(old.fields[fname], idx)
+            return Struct(old.name, f)
+        return self.apply_here(old, idx)
+
+    def apply_here(self, old, idx):
         m = {}
         gs = list(self.guards)
         bnames = [b for b, _c in self.binders]
@@ -102,7 +114,7 @@ class Rule:
             # structured elements: only plain overwrite without residual binders is supported
             if self.op == "=" and not rest and not gs:
                 return subst_val(self.value, m)
-            raise Undecided("write rule on structured element")
+            raise Undecided("write rule on structured element (op %s, residual binders %s, guards %s)" % (self.op, rest, gs))
         if self.op == "+":
             return Num(old.expr + contrib(self.value))
         if self.op == "-":
@@ -213,10 +225,22 @@ def subst_val(v, m):
         def nb(*idx):
             return subst_val(base(*idx), m)
         return Arr(v.classes, nb, [Rule([m.get(i, i) if isinstance(i, str) else i for i in r.index], r.op, subst_val(r.value, m), r.binders,
-                                        [tuple([g[0]] + [m.get(x, x) if isinstance(x, str) else x for x in g[1:]]) for g in r.guards]) for r in rules],
+                                        [tuple([g[0]] + [m.get(x, x) if isinstance(x, str) else x for x in g[1:]]) for g in r.guards], r.subpath) for r in rules],
                    v.guards_fn, v.name)
     if isinstance(v, Opt):
-        return Opt(v.some, subst_val(v.payload, m) if v.payload is not None else None)
+        some = v.some
+        if isinstance(some, Cond):
+            some = subst_val(some, m)
+        return Opt(some, subst_val(v.payload, m) if v.payload is not None else None)
+    if isinstance(v, Cond):
+        if v.kind == "rel":
+            return Cond("rel", tuple([v.data[0]] + [m.get(x, x) if isinstance(x, str) else x for x in v.data[1:]]))
+        if v.kind == "key":
+            from .expr import cond_subst
+            return Cond("key", cond_subst(v.data, m))
+        return v
+    if hasattr(v, "m_subst"):
+        return v.m_subst(m)
     return v
 
 
@@ -300,6 +324,8 @@ class Interp:
         self.trace = []
         self.early_returns = []
         self.recurrences = []
+        self.write_log = []
+        self.cur_env = None
         self.breaks = []
         self.while_loops = []
         self.derived_sizes = {}
@@ -1050,6 +1076,8 @@ class Interp:
         return v
 
     def update(self, var, path, op, val, env, binders=(), guards=(), summarised=False):
+        if not summarised:
+            self.write_log.append((self.var_names.get(var, var), tuple(path), op, val, [c.key() for c in self.cond_stack]))
         if self.loops and var not in self.loops[-1].inner_vars:
             lc = self.loops[-1]
             idx_path = [p for p in path if p[0] in ("idx", "midx")]
@@ -1102,10 +1130,13 @@ class Interp:
                 return Struct(cur.name, f)
             if not isinstance(cur, Arr):
                 raise Undecided("indexed update on %r" % (cur,))
-            if len(path) > 1:
-                raise Undecided("nested indexed update")
+            sub = []
+            for q_ in path[1:]:
+                if q_[0] != "field":
+                    raise Undecided("nested indexed update")
+                sub.append(q_[1])
             index = p[1] if p[0] == "midx" else (p[1],)
-            return cur.with_rule(Rule(index, op, val, binders, guards))
+            return cur.with_rule(Rule(index, op, val, binders, guards, sub))
         raise Undecided("update path %r" % (p,))
 
     # ---- calls ----------------------------------------------------------------------------------
